@@ -451,7 +451,7 @@ class StepClock:
 def _budget_exceeded():
     S.sim += 1
     stack = "".join(traceback.format_stack(limit=12))
-    site = _site_from_stack(traceback.extract_stack())
+    site = _chain_from_stack(traceback.extract_stack())
     violation("LIVENESS", "step-budget", site,
               f"operation {S.cur_op} used more than {S.budget} steps\n{stack}")
     ev("liveness", S.cur_op)
@@ -467,6 +467,18 @@ def _site_from_stack(frames_):
         if "/fortls/" in fn and "/dst/" not in fn:
             return f"{fr.name}: {(fr.line or '').strip()}"
     return "?"
+
+
+def _chain_from_stack(frames_):
+    """names of the first fortls frames below the dispatcher: stable site of a runaway loop"""
+    names = []
+    for fr in frames_:
+        fn = fr.filename.replace("\\", "/")
+        if "/fortls/" in fn and "/dst/" not in fn:
+            if fr.name in ("run", "handle", "main"):
+                continue
+            names.append(fr.name)
+    return ">".join(names[:3]) or "?"
 
 
 def site_from_traceback_text(tb: str) -> str:
